@@ -130,7 +130,7 @@ theorem sim_fnReturn (hg : GlobRel g rg) (resTy : Ty) (e : Expr) (rc : Bool) (s 
           cases a with
           | none => exact ⟨Δ2, hΔ2⟩
           | some r =>
-            obtain ⟨Δ3, hΔ3⟩ := (esteps_fnReturnTail g resTy e r (if rc then s1.addErr .returnAlreadyCalled e.show 1 0 else s1)).errors_ext
+            obtain ⟨Δ3, hΔ3⟩ := (steps_fnReturnTail g resTy e r (if rc then s1.addErr .returnAlreadyCalled e.show 1 0 else s1)).errors_ext
             exact ⟨Δ2 ++ Δ3, by rw [hΔ3, hΔ2]; simp⟩
         have hf := Fail.mono h1 hx (if rc then [⟨"B12-twice", .returnAlreadyCalled, e.show, true⟩] else [])
         refine ⟨vs ++ (if rc then [⟨"B12-twice", .returnAlreadyCalled, e.show, true⟩] else []), ?_, Or.inr hf⟩
@@ -159,7 +159,7 @@ theorem sim_fnReturn (hg : GlobRel g rg) (resTy : Ty) (e : Expr) (rc : Bool) (s 
         generalize (if rc then s1.addErr .returnAlreadyCalled e.show 1 0 else s1) = s2 at hB hlenB
         generalize (if rc then (rs.add vs).viol "B12-twice" .returnAlreadyCalled e.show else rs.add vs) = r2 at hB
         refine StmtSim.seq hB (fun hp => (sim_fnReturnTail hg resTy e r s2 r2 hp).weaken fun hq => ⟨⟨hq.1, by rw [hq.2, hlenB]⟩, rfl⟩)
-          (esteps_fnReturnTail g resTy e r s2).errors_ext (rext_checkFnRetTail resTy e r.ty r2)
+          (steps_fnReturnTail g resTy e r s2).errors_ext (rext_checkFnRetTail resTy e r.ty r2)
 
 
 theorem forbidden_fn (rc : Bool) (s : St) :
@@ -249,7 +249,7 @@ theorem sim_bodyStmts (hg : GlobRel g rg) (resTy : Ty) : ∀ (l : List BodyStmt)
       unfold BodyStmt.loopOKL at hok
       dsimp only
       have h1 := fun hs0 => sim_fnReturn hg resTy e rc s0 r0 hs0
-      have a1 := ext_of_esteps (esteps_fnReturn g resTy e rc s0)
+      have a1 := ext_of_steps (steps_fnReturn g resTy e rc s0)
       have c1 := rext_checkFnRet (rg := rg) resTy e rc r0
       generalize fnReturn g resTy e rc s0 = q at h1 a1
       obtain ⟨s1, r⟩ := q
@@ -265,7 +265,7 @@ theorem sim_bodyStmts (hg : GlobRel g rg) (resTy : Ty) : ∀ (l : List BodyStmt)
       unfold BodyStmt.loopOKL at hok
       dsimp only
       have h1 := fun hs0 => sim_fnReturn hg resTy e rc s0 r0 hs0
-      have a1 := ext_of_esteps (esteps_fnReturn g resTy e rc s0)
+      have a1 := ext_of_steps (steps_fnReturn g resTy e rc s0)
       have c1 := rext_checkFnRet (rg := rg) resTy e rc r0
       generalize fnReturn g resTy e rc s0 = q at h1 a1
       obtain ⟨s1, r⟩ := q
